@@ -85,10 +85,10 @@ def run_one(mod, master, tier, run, keep_log=False, case=None):
 
 
 def _worker_chunk(args):
-    master, tier, runs, budget_s = args
+    master, tier, runs, budget_s, sample_every = args
     faulthandler.dump_traceback_later(max(120, budget_s), exit=True)
     res = {'runs': 0, 'digests': [], 'nontrivial': [], 'fail': [], 'stats': collections.Counter(),
-           'harness_errors': [], 'samples': []}
+           'harness_errors': [], 'samples': [], 'sampled': []}
     for run in runs:
         try:
             case, out = run_one(_MOD, master, tier, run)
@@ -102,6 +102,8 @@ def _worker_chunk(args):
         before = _WORKER_HISTORY[-192:]
         _WORKER_HISTORY.append(run)
         res['digests'].append((run, out['digest'][:16]))
+        if sample_every and run % sample_every == 3 and not out['violations']:
+            res['sampled'].append((run, out['digest'][:16], before[-96:]))
         if out['stats'].get('nontrivial'):
             res['nontrivial'].append(out.get('shape_digest', out['digest'])[:16])
         for k, v in out['stats'].items():
@@ -438,6 +440,19 @@ def _digest_one(mod, master, tier, r):
     return o['digest']
 
 
+def _twin_digest(args):
+    """Runs in a pool worker that never executes a case itself: the run is executed in a forked child."""
+    prop, master, tier, run = args
+    mod = _load_module(prop)
+    st, d = in_clean_child(_digest_one, mod, master, tier, run)
+    return run, (d[:16] if st == 'ok' else None), (None if st == 'ok' else d)
+
+
+def _twin_init():
+    faulthandler.enable()
+    core.bootstrap()
+
+
 def digests_clean(mod, master, tier, runs):
     """Each run in its own clean child."""
     out = {}
@@ -496,7 +511,10 @@ def run_batch(prop, tier, master, nruns, workers, wall_cap_s, selftest_n):
     workers = max(1, workers)
     chunk = max(1, min(200, nruns // (workers * 4) or 1))
     chunks = [list(range(i, min(i + chunk, nruns))) for i in range(0, nruns, chunk)]
-    agg = {'runs': 0, 'stats': collections.Counter(), 'fail': [], 'harness_errors': [], 'samples': []}
+    agg = {'runs': 0, 'stats': collections.Counter(), 'fail': [], 'harness_errors': [], 'samples': [], 'sampled': []}
+    # every sample_every-th run is executed a second time, alone in a clean process, and the digests compared
+    n_iso = 96 if tier == 'quick' else 480
+    sample_every = max(1, nruns // n_iso) if nruns >= 200 else 0
     pool_digests = {}
     nontrivial = set()
     all_digests = set()
@@ -505,7 +523,7 @@ def run_batch(prop, tier, master, nruns, workers, wall_cap_s, selftest_n):
     try:
         with concurrent.futures.ProcessPoolExecutor(max_workers=workers, mp_context=ctx,
                                                     initializer=_worker_init, initargs=(prop,)) as ex:
-            futs = [ex.submit(_worker_chunk, (master, tier, c, int(wall_cap_s))) for c in chunks]
+            futs = [ex.submit(_worker_chunk, (master, tier, c, int(wall_cap_s), sample_every)) for c in chunks]
             for fut in concurrent.futures.as_completed(futs):
                 if time.time() - t0 > wall_cap_s:
                     capped = True
@@ -516,6 +534,7 @@ def run_batch(prop, tier, master, nruns, workers, wall_cap_s, selftest_n):
                 agg['runs'] += r['runs']
                 agg['stats'].update(r['stats'])
                 agg['fail'].extend(r['fail'])
+                agg['sampled'].extend(r['sampled'])
                 agg['harness_errors'].extend(r['harness_errors'])
                 if len(agg['samples']) < 3:
                     agg['samples'].extend(r['samples'])
@@ -538,6 +557,30 @@ def run_batch(prop, tier, master, nruns, workers, wall_cap_s, selftest_n):
     if not ok and not st.get('position_dependent'):
         print(f'HARNESS-NONDETERMINISM property={prop} {core.jdump(st)}')
         return EXIT_HARNESS
+
+    # isolated re-execution of a sample of the runs (position dependence beyond the small self-test)
+    iso = {'runs_compared': 0, 'position_dependent_runs': []}
+    iso_hist = {}
+    if agg['sampled']:
+        try:
+            with concurrent.futures.ProcessPoolExecutor(max_workers=workers, mp_context=ctx, initializer=_twin_init) as ex2:
+                want = {r_: (d_, b_) for r_, d_, b_ in agg['sampled']}
+                for run_, d_iso, err in ex2.map(_twin_digest, [(prop, master, tier, r_) for r_ in sorted(want)]):
+                    if err is not None:
+                        print(f'HARNESS-ERROR property={prop} isolated re-execution of run {run_} failed: {str(err)[-800:]}')
+                        return EXIT_HARNESS
+                    iso['runs_compared'] += 1
+                    if d_iso != want[run_][0]:
+                        iso['position_dependent_runs'].append(run_)
+                        iso_hist[run_] = want[run_][1]
+        except concurrent.futures.process.BrokenProcessPool as e:
+            print(f'HARNESS-ERROR property={prop} twin worker died: {e}')
+            return EXIT_HARNESS
+    st['isolated_sample'] = {'runs_compared': iso['runs_compared'], 'position_dependent_runs': iso['position_dependent_runs'][:20]}
+    if iso['position_dependent_runs'] and ok:
+        ok = False
+        st['position_dependent'] = True
+        st.setdefault('position_dependent_runs', [])
 
     # violations: one representative per signature, confirmed in a clean child
     exit_code = EXIT_OK
@@ -617,6 +660,15 @@ def run_batch(prop, tier, master, nruns, workers, wall_cap_s, selftest_n):
                     found = find_cross_execution_dependence(mod, master, tier, st_runs, r_, time.time() + 150)
                     if found:
                         break
+                if not found:
+                    for r_ in iso['position_dependent_runs'][:4]:
+                        hist = iso_hist.get(r_) or []
+                        for k_ in (1, 4, 16, 96):
+                            found = find_cross_execution_dependence(mod, master, tier, hist[-k_:] + [r_], r_, time.time() + 120)
+                            if found or k_ >= len(hist):
+                                break
+                        if found:
+                            break
             if not found:
                 print(f'HARNESS-NONDETERMINISM property={prop} runs depend on batch position but no violation reproduces in '
                       f'isolation: {core.jdump(st)}')
